@@ -95,10 +95,14 @@ def run(ctx):
         chk.ob("C17.a", f"{f.path} [parent merge is non-overwriting]", ok, "child fields win over inherited ones (inherited labels only through entry(k).or_insert..)" if ok else f"on_new_span merges the parent's labels with an overwriting operation ({sorted(names)}): an outer span's field would beat the inner span's", f.loc())
         okp = bool(muts) and len(par) == 1 and len(spn) >= 1
         detail = ""
-        if okp:
+        merges = ([c for c in muts if callee_method_name(c) == "entry"] + guarded) if okp else []
+        for m0 in merges:
+            # (decided for EVERY merging site: a second merge in the other direction — the parent's map copied and the
+            # span's own fields offered to it — lets the outer value survive)
+            if not okp:
+                break
             # every inherited entry is visited: the merging operation runs once per element of the parent's label map,
             # and that map is found in the extensions of cx.span(id).parent()
-            m0 = ([c for c in muts if callee_method_name(c) == "entry"] + guarded)[0]
             m_it = m0
             if m0 in guarded:
                 # the per-element step of a guarded insert is its (unconditional) membership test
@@ -134,8 +138,10 @@ def run(ctx):
             from props.common import actual_of
 
             dst = actual_of(m0.fn, Sym(m0.fn).operand(m0.args[0]))
-            okp = okp and _own(sym_str(dst))
-        else:
+            if okp and not _own(sym_str(dst)):
+                okp = False
+                detail = "a merge whose destination is not the new span's own freshly recorded labels"
+        if not merges:
             detail = f"parent lookups: {[callee_method_name(c) for c in nonforeign_calls(f) if 'parent' in callee_method_name(c) or 'lookup' in callee_method_name(c) or 'current' in callee_method_name(c)]}"
         chk.ob("C17.a", f"{f.path} [inherits from the registered parent]", okp, "every label of cx.span(id).parent()'s extensions is offered to the new span's own labels" if okp else f"inherited labels do not come (all) from the new span's registered parent ({detail}): with explicit parents (span!(parent: ..)) the thread's current span is a different span", f.loc())
         ins = [c for c in nonforeign_calls(f) if c.is_("ExtensionsMut<'a>::insert", "insert") and "Extensions" in (c.resolved or "")]
@@ -163,6 +169,14 @@ def run(ctx):
 
             dst = actual_of(muts[0].fn, Sym(muts[0].fn).operand(muts[0].args[0]))
             ok = src is not None and _own(sym_str(src)) and "get_mut" in repr(dst) and len(_recorded_from(f, 2)) == 1
+        if ok:
+            # ... for every span the values are recorded on: no way through on_record returns before the span's stored
+            # labels are fetched (a record() on a span that is not the current one — before enter(), on an outer span,
+            # from another thread — counts like any other)
+            gm = [c for c in nonforeign_calls(f) if c.fn is f and callee_method_name(c) == "get_mut"]
+            if len(gm) == 1 and [r for r in f.body.return_blocks() if r in f.body.reachable(0, cut={gm[0].bb})]:
+                ok = False
+                names = {"early return before the span's labels are looked up"}
         chk.ob("C17.a", f"{f.path} [later record overwrites]", ok, "every newly recorded value is insert()ed over the span's existing labels" if ok else f"a later record() does not replace the span's earlier value (map operations {sorted(names)})", f.loc())
     else:
         chk.unrecognised("C17.a", "<anchor> MetricsLayer::on_record", f"found {len(onr)}")
@@ -222,6 +236,11 @@ def run(ctx):
                     if any("into_parts" in sym_str(Sym(rf).operand(x)) for x in c.args[1:]):
                         own.append(c)
         ok2 = len(ret) == 1 and len(own) == 1 and ret[0].body.dominates(ret[0].bb, own[0].bb) and ret[0].bb != own[0].bb
+        if ok2:
+            # ... and that is the only merge: no second map is filled from either side (span labels extended INTO a map
+            # built from the metric's labels make the span's value win)
+            other = [c for c in nonforeign_calls(ret[0].fn) if c.fn is ret[0].fn and c.bb != own[0].bb and "indexmap" in (c.resolved or "") and callee_method_name(c) in ("extend", "insert", "insert_full", "from_iter", "entry", "append")]
+            ok2 = not other
         if ok2:
             same_map = repr(_root_arg(Sym(own[0].fn).operand(own[0].args[0]))) == repr(_root_arg(Sym(ret[0].fn).operand(ret[0].args[0])))
             ok2 = same_map
